@@ -169,17 +169,18 @@ as VEX3 or VEX2. Generic in the address form (`AddrForm`); instances: `addrForm_
 
 /-- **front_cls_correct with a memory operand, classes VexRvm / VexRvm_Lx**: `reg, vvvv, MEM` -/
 theorem front_cls_correct_rvm_mem (e : Entry) (ch : List Entry) (hch : ch ∈ rvmChunks) (he : e ∈ ch)
-    (c : Model.X86.Ctx) (ctx : Spec.X86.Ctx) (reg vvvvv xb : BitVec 32) (size : Nat) (m : Mem) (mo : MemOp) (pfx : List (BitVec 8))
+    (c : Model.X86.Ctx) (ctx : Spec.X86.Ctx) (reg vvvvv xb aaa : BitVec 32) (z : Bool) (size : Nat) (m : Mem) (mo : MemOp) (pfx : List (BitVec 8))
     (mb : BitVec 32 → BitVec 32 → BitVec 8) (sib : BitVec 32 → BitVec 32 → Option (BitVec 8)) (ds : BitVec 32 → BitVec 32 → List (BitVec 8))
-    (AF : AddrForm c ctx m mo pfx xb mb sib ds) (hsize : mo.size = size)
+    (AF : AddrForm c ctx m mo pfx xb aaa mb sib ds) (hsize : mo.size = size)
+    (D : DecorAllowed e.rule aaa.toNat z false false)
     (hvf : c.vexFlag = (e.iflags &&& 0x400000#32 != 0#32)) (hm64 : ctx.mode64 = true)
     (hsz : ∀ f2, e.rule.ops[2]? = some f2 → hasMemAlt f2 size = true)
     (hids : (e.rule.space = 2 ∧ reg < 32#32 ∧ vvvvv < 32#32 ∧
-              (e.iflags &&& 0x400000#32 = 0#32 ∨ xR (finalOp e 0x75) 0#32 reg vvvvv xb 0#32 &&& 0x00D78110#32 ≠ 0#32)) ∨
-            (e.rule.space = 1 ∧ reg < 16#32 ∧ vvvvv < 16#32)) :
+              (e.iflags &&& 0x400000#32 = 0#32 ∨ (xR (finalOp e 0x75) 0#32 reg vvvvv xb aaa ||| zOpt z) &&& 0x00D78110#32 ≠ 0#32)) ∨
+            (e.rule.space = 1 ∧ reg < 16#32 ∧ vvvvv < 16#32 ∧ aaa = 0#32 ∧ z = false)) :
     ∃ bytes k0 k1 k2, e.kinds = [k0, k1, k2] ∧
-      emitVexEvexM c (finalOp e 0x75) 0#32 (packRegVvvvv reg.toNat vvvvv.toNat) m 0 0 = .ok bytes ∧
-      formOk ctx e.rule [.reg k0 reg.toNat, .reg k1 vvvvv.toNat, .mem mo] {} bytes = true := by
+      emitVexEvexM c (finalOp e 0x75) (zOpt z) (packRegVvvvv reg.toNat vvvvv.toNat) m 0 0 = .ok bytes ∧
+      formOk ctx e.rule [.reg k0 reg.toNat, .reg k1 vvvvv.toNat, .mem mo] (decorOf aaa.toNat z false false 0) bytes = true := by
   have hok := mem_chunks_ok rvm_mem_entries_ok e ch hch he
   unfold entryOkRvmMem at hok
   split at hok
@@ -193,19 +194,20 @@ theorem front_cls_correct_rvm_mem (e : Entry) (ch : List Entry) (hch : ch ∈ rv
       rw [hops]
       exact alignOps3 _ _ _ _ _ _ _ (by rw [formOpMatches_reg_nofix _ _ _ _ n0]; exact m0) (by rw [formOpMatches_reg_nofix _ _ _ _ n1]; exact m1)
         (hasMemAlt_matches _ _ _ _ hm2 hsize AF.hvsib)
-    rcases hids with ⟨hsp, hr, hv, hev⟩ | ⟨hsp, hr, hv⟩
+    rcases hids with ⟨hsp, hr, hv, hev⟩ | ⟨hsp, hr, hv, ha0, hz0⟩
     · rw [hsp] at A
       obtain ⟨hs6, hN⟩ := hevex hsp
-      have hev' : c.vexFlag = false ∨ xR (finalOp e 0x75) 0#32 reg vvvvv xb 0#32 &&& 0x00D78110#32 ≠ 0#32 := by
+      have hev' : c.vexFlag = false ∨ (xR (finalOp e 0x75) 0#32 reg vvvvv xb aaa ||| zOpt z) &&& 0x00D78110#32 ≠ 0#32 := by
         rcases hev with h | h
         · exact Or.inl (vexFlag_false_of c _ hvf h)
         · exact Or.inr h
-      obtain ⟨bytes, hb', hf⟩ := vexM_rvm_formOk_evex c ctx e.rule (finalOp e 0x75) reg vvvvv xb m mo pfx mb sib ds AF k0 k1 f0 f1 f2 hm64 hmode
-        hr hv hxop hev' (plainKind_spec _ p0) (plainKind_spec _ p1) R hsp A hs6 hN r0 r1 r2 hal
+      obtain ⟨bytes, hb', hf⟩ := vexM_rvm_formOk_evex c ctx e.rule (finalOp e 0x75) reg vvvvv xb aaa z m mo pfx mb sib ds AF k0 k1 f0 f1 f2 hm64 hmode
+        hr hv hxop hev' (plainKind_spec _ p0) (plainKind_spec _ p1) R D hsp A hs6 hN r0 r1 r2 hal
       refine ⟨bytes, k0, k1, k2, hkinds, ?_, hf⟩
       rw [packRegVvvvv_eq reg vvvvv hr hv]
       exact hb'
     · obtain ⟨hll, hmm, hvb⟩ := hvex hsp
+      subst ha0; subst hz0
       have A' : RowAgree e.rule (finalOp e 0x75) false := by rw [hsp] at A; exact A
       obtain ⟨bytes, hb', hf⟩ := vexM_rvm_formOk_vex c ctx e.rule (finalOp e 0x75) reg vvvvv xb m mo pfx mb sib ds AF k0 k1 f0 f1 f2
         (vexFlag_true_of c _ hvf hvb) hm64 hmode
@@ -217,18 +219,19 @@ theorem front_cls_correct_rvm_mem (e : Entry) (ch : List Entry) (hch : ch ∈ rv
 
 /-- **front_cls_correct with a memory operand, classes VexRvmi / VexRvmi_Lx**: `reg, vvvv, MEM, imm8` for every immediate the form admits -/
 theorem front_cls_correct_rvmi_mem (e : Entry) (ch : List Entry) (hch : ch ∈ rvmiChunks) (he : e ∈ ch)
-    (c : Model.X86.Ctx) (ctx : Spec.X86.Ctx) (reg vvvvv xb : BitVec 32) (size : Nat) (m : Mem) (mo : MemOp) (pfx : List (BitVec 8)) (imm : BitVec 64)
+    (c : Model.X86.Ctx) (ctx : Spec.X86.Ctx) (reg vvvvv xb aaa : BitVec 32) (z : Bool) (size : Nat) (m : Mem) (mo : MemOp) (pfx : List (BitVec 8)) (imm : BitVec 64)
     (mb : BitVec 32 → BitVec 32 → BitVec 8) (sib : BitVec 32 → BitVec 32 → Option (BitVec 8)) (ds : BitVec 32 → BitVec 32 → List (BitVec 8))
-    (AF : AddrForm c ctx m mo pfx xb mb sib ds) (hsize : mo.size = size)
+    (AF : AddrForm c ctx m mo pfx xb aaa mb sib ds) (hsize : mo.size = size)
+    (D : DecorAllowed e.rule aaa.toNat z false false)
     (hvf : c.vexFlag = (e.iflags &&& 0x400000#32 != 0#32)) (hm64 : ctx.mode64 = true)
     (hsz : ∀ f2, e.rule.ops[2]? = some f2 → hasMemAlt f2 size = true)
     (himm : ∀ f3, e.rule.ops[3]? = some f3 → formOpMatches e.rule.oszEff f3 (.imm imm) = true)
     (hids : (e.rule.space = 2 ∧ reg < 32#32 ∧ vvvvv < 32#32 ∧
-              (e.iflags &&& 0x400000#32 = 0#32 ∨ xR (finalOp e 0x7C) 0#32 reg vvvvv xb 0#32 &&& 0x00D78110#32 ≠ 0#32)) ∨
-            (e.rule.space = 1 ∧ reg < 16#32 ∧ vvvvv < 16#32)) :
+              (e.iflags &&& 0x400000#32 = 0#32 ∨ (xR (finalOp e 0x7C) 0#32 reg vvvvv xb aaa ||| zOpt z) &&& 0x00D78110#32 ≠ 0#32)) ∨
+            (e.rule.space = 1 ∧ reg < 16#32 ∧ vvvvv < 16#32 ∧ aaa = 0#32 ∧ z = false)) :
     ∃ bytes k0 k1 k2, e.kinds = [k0, k1, k2] ∧
-      emitVexEvexM c (finalOp e 0x7C) 0#32 (packRegVvvvv reg.toNat vvvvv.toNat) m imm 1 = .ok bytes ∧
-      formOk ctx e.rule [.reg k0 reg.toNat, .reg k1 vvvvv.toNat, .mem mo, .imm imm] {} bytes = true := by
+      emitVexEvexM c (finalOp e 0x7C) (zOpt z) (packRegVvvvv reg.toNat vvvvv.toNat) m imm 1 = .ok bytes ∧
+      formOk ctx e.rule [.reg k0 reg.toNat, .reg k1 vvvvv.toNat, .mem mo, .imm imm] (decorOf aaa.toNat z false false 0) bytes = true := by
   have hok := mem_chunks_ok rvmi_mem_entries_ok e ch hch he
   unfold entryOkRvmiMem at hok
   split at hok
@@ -243,19 +246,20 @@ theorem front_cls_correct_rvmi_mem (e : Entry) (ch : List Entry) (hch : ch ∈ r
       rw [hops]
       exact alignOps4 _ _ _ _ _ _ _ _ _ (by rw [formOpMatches_reg_nofix _ _ _ _ n0]; exact m0) (by rw [formOpMatches_reg_nofix _ _ _ _ n1]; exact m1)
         (hasMemAlt_matches _ _ _ _ hm2 hsize AF.hvsib) m3
-    rcases hids with ⟨hsp, hr, hv, hev⟩ | ⟨hsp, hr, hv⟩
+    rcases hids with ⟨hsp, hr, hv, hev⟩ | ⟨hsp, hr, hv, ha0, hz0⟩
     · rw [hsp] at A
       obtain ⟨hs6, hN⟩ := hevex hsp
-      have hev' : c.vexFlag = false ∨ xR (finalOp e 0x7C) 0#32 reg vvvvv xb 0#32 &&& 0x00D78110#32 ≠ 0#32 := by
+      have hev' : c.vexFlag = false ∨ (xR (finalOp e 0x7C) 0#32 reg vvvvv xb aaa ||| zOpt z) &&& 0x00D78110#32 ≠ 0#32 := by
         rcases hev with h | h
         · exact Or.inl (vexFlag_false_of c _ hvf h)
         · exact Or.inr h
-      obtain ⟨bytes, hb', hf⟩ := vexM_rvmi_formOk_evex c ctx e.rule (finalOp e 0x7C) reg vvvvv xb m mo pfx mb sib ds AF k0 k1 f0 f1 f2 hm64 hmode
-        hr hv hxop hev' (plainKind_spec _ p0) (plainKind_spec _ p1) R f3 imm r3 hib hsp A hs6 hN r0 r1 r2 hal
+      obtain ⟨bytes, hb', hf⟩ := vexM_rvmi_formOk_evex c ctx e.rule (finalOp e 0x7C) reg vvvvv xb aaa z m mo pfx mb sib ds AF k0 k1 f0 f1 f2 hm64 hmode
+        hr hv hxop hev' (plainKind_spec _ p0) (plainKind_spec _ p1) R D f3 imm r3 hib hsp A hs6 hN r0 r1 r2 hal
       refine ⟨bytes, k0, k1, k2, hkinds, ?_, hf⟩
       rw [packRegVvvvv_eq reg vvvvv hr hv]
       exact hb'
     · obtain ⟨hll, hmm, hvb⟩ := hvex hsp
+      subst ha0; subst hz0
       have A' : RowAgree e.rule (finalOp e 0x7C) false := by rw [hsp] at A; exact A
       obtain ⟨bytes, hb', hf⟩ := vexM_rvmi_formOk_vex c ctx e.rule (finalOp e 0x7C) reg vvvvv xb m mo pfx mb sib ds AF k0 k1 f0 f1 f2
         (vexFlag_true_of c _ hvf hvb) hm64 hmode
@@ -268,17 +272,18 @@ theorem front_cls_correct_rvmi_mem (e : Entry) (ch : List Entry) (hch : ch ∈ r
 /-- **front_cls_correct with a memory operand, classes VexRm / VexRm_Lx**: `reg, MEM`; for the _Lx class the L bits come from the
 register's size or-ed with the MEMORY operand's size (`finalOpM`) -/
 theorem front_cls_correct_rm_mem (e : Entry) (ch : List Entry) (hch : ch ∈ rmChunks) (he : e ∈ ch)
-    (c : Model.X86.Ctx) (ctx : Spec.X86.Ctx) (reg xb : BitVec 32) (size : Nat) (m : Mem) (mo : MemOp) (pfx : List (BitVec 8))
+    (c : Model.X86.Ctx) (ctx : Spec.X86.Ctx) (reg xb aaa : BitVec 32) (z : Bool) (size : Nat) (m : Mem) (mo : MemOp) (pfx : List (BitVec 8))
     (mb : BitVec 32 → BitVec 32 → BitVec 8) (sib : BitVec 32 → BitVec 32 → Option (BitVec 8)) (ds : BitVec 32 → BitVec 32 → List (BitVec 8))
-    (AF : AddrForm c ctx m mo pfx xb mb sib ds) (hsize : mo.size = size)
+    (AF : AddrForm c ctx m mo pfx xb aaa mb sib ds) (hsize : mo.size = size)
+    (D : DecorAllowed e.rule aaa.toNat z false false)
     (hvf : c.vexFlag = (e.iflags &&& 0x400000#32 != 0#32)) (hm64 : ctx.mode64 = true)
     (hsz : ∀ f2, e.rule.ops[1]? = some f2 → hasMemAlt f2 size = true)
     (hids : (e.rule.space = 2 ∧ reg < 32#32 ∧
-              (e.iflags &&& 0x400000#32 = 0#32 ∨ xR (finalOpM e 0x6B size) 0#32 reg 0#32 xb 0#32 &&& 0x00D78110#32 ≠ 0#32)) ∨
-            (e.rule.space = 1 ∧ reg < 16#32)) :
+              (e.iflags &&& 0x400000#32 = 0#32 ∨ (xR (finalOpM e 0x6B size) 0#32 reg 0#32 xb aaa ||| zOpt z) &&& 0x00D78110#32 ≠ 0#32)) ∨
+            (e.rule.space = 1 ∧ reg < 16#32 ∧ aaa = 0#32 ∧ z = false)) :
     ∃ bytes k0 k2, e.kinds = [k0, k2] ∧
-      emitVexEvexM c (finalOpM e 0x6B size) 0#32 (r32 reg.toNat) m 0 0 = .ok bytes ∧
-      formOk ctx e.rule [.reg k0 reg.toNat, .mem mo] {} bytes = true := by
+      emitVexEvexM c (finalOpM e 0x6B size) (zOpt z) (r32 reg.toNat) m 0 0 = .ok bytes ∧
+      formOk ctx e.rule [.reg k0 reg.toNat, .mem mo] (decorOf aaa.toNat z false false 0) bytes = true := by
   have hok := mem_chunks_ok rm_mem_entries_ok e ch hch he
   unfold entryOkRmMem at hok
   split at hok
@@ -293,42 +298,44 @@ theorem front_cls_correct_rm_mem (e : Entry) (ch : List Entry) (hch : ch ∈ rmC
       rw [hops]
       exact alignOps2 _ _ _ _ _ (by rw [formOpMatches_reg_nofix _ _ _ _ n0]; exact m0) (hasMemAlt_matches _ _ _ _ hm2 hsize AF.hvsib)
     have e0 : reg + ((0#32 : BitVec 32) <<< 7) = reg := by bv_decide
-    rcases hids with ⟨hsp, hr, hev⟩ | ⟨hsp, hr⟩
+    rcases hids with ⟨hsp, hr, hev⟩ | ⟨hsp, hr, ha0, hz0⟩
     · rw [hsp] at A
       obtain ⟨hs6, hN⟩ := hevex hsp
-      have hev' : c.vexFlag = false ∨ xR (finalOpM e 0x6B size) 0#32 reg 0#32 xb 0#32 &&& 0x00D78110#32 ≠ 0#32 := by
+      have hev' : c.vexFlag = false ∨ (xR (finalOpM e 0x6B size) 0#32 reg 0#32 xb aaa ||| zOpt z) &&& 0x00D78110#32 ≠ 0#32 := by
         rcases hev with h | h
         · exact Or.inl (vexFlag_false_of c _ hvf h)
         · exact Or.inr h
-      obtain ⟨bytes, hb', hf⟩ := vexM_rm_formOk_evex c ctx e.rule (finalOpM e 0x6B size) reg xb m mo pfx mb sib ds AF k0 f0 f2 hm64 hmode
-        hr hxop hev' (plainKind_spec _ p0) R hsp A hs6 hN r0 r2 hal
+      obtain ⟨bytes, hb', hf⟩ := vexM_rm_formOk_evex c ctx e.rule (finalOpM e 0x6B size) reg xb aaa z m mo pfx mb sib ds AF k0 f0 f2 hm64 hmode
+        hr hxop hev' (plainKind_spec _ p0) R D hsp A hs6 hN r0 r2 hal
       refine ⟨bytes, k0, k2, hkinds, ?_, hf⟩
       rw [e0] at hb'
-      simpa [r32] using hb'
+      simpa [r32, zOpt] using hb'
     · obtain ⟨hll, hmm, hvb⟩ := hvex hsp
+      subst ha0; subst hz0
       have A' : RowAgree e.rule (finalOpM e 0x6B size) false := by rw [hsp] at A; exact A
       obtain ⟨bytes, hb', hf⟩ := vexM_rm_formOk_vex c ctx e.rule (finalOpM e 0x6B size) reg xb m mo pfx mb sib ds AF k0 f0 f2
         (vexFlag_true_of c _ hvf hvb) hm64 hmode
         hr hxop hll hmm (plainKind_spec _ p0) R hsp A' r0 r2 hal
       refine ⟨bytes, k0, k2, hkinds, ?_, hf⟩
       rw [e0] at hb'
-      simpa [r32] using hb'
+      simpa [r32, zOpt] using hb'
   · simp at hok
 
 /-- **front_cls_correct with a memory operand, classes VexRmi / VexRmi_Lx**: `reg, MEM, imm8` -/
 theorem front_cls_correct_rmi_mem (e : Entry) (ch : List Entry) (hch : ch ∈ rmiChunks) (he : e ∈ ch)
-    (c : Model.X86.Ctx) (ctx : Spec.X86.Ctx) (reg xb : BitVec 32) (size : Nat) (m : Mem) (mo : MemOp) (pfx : List (BitVec 8)) (imm : BitVec 64)
+    (c : Model.X86.Ctx) (ctx : Spec.X86.Ctx) (reg xb aaa : BitVec 32) (z : Bool) (size : Nat) (m : Mem) (mo : MemOp) (pfx : List (BitVec 8)) (imm : BitVec 64)
     (mb : BitVec 32 → BitVec 32 → BitVec 8) (sib : BitVec 32 → BitVec 32 → Option (BitVec 8)) (ds : BitVec 32 → BitVec 32 → List (BitVec 8))
-    (AF : AddrForm c ctx m mo pfx xb mb sib ds) (hsize : mo.size = size)
+    (AF : AddrForm c ctx m mo pfx xb aaa mb sib ds) (hsize : mo.size = size)
+    (D : DecorAllowed e.rule aaa.toNat z false false)
     (hvf : c.vexFlag = (e.iflags &&& 0x400000#32 != 0#32)) (hm64 : ctx.mode64 = true)
     (hsz : ∀ f2, e.rule.ops[1]? = some f2 → hasMemAlt f2 size = true)
     (himm : ∀ f3, e.rule.ops[2]? = some f3 → formOpMatches e.rule.oszEff f3 (.imm imm) = true)
     (hids : (e.rule.space = 2 ∧ reg < 32#32 ∧
-              (e.iflags &&& 0x400000#32 = 0#32 ∨ xR (finalOpM e 0x71 size) 0#32 reg 0#32 xb 0#32 &&& 0x00D78110#32 ≠ 0#32)) ∨
-            (e.rule.space = 1 ∧ reg < 16#32)) :
+              (e.iflags &&& 0x400000#32 = 0#32 ∨ (xR (finalOpM e 0x71 size) 0#32 reg 0#32 xb aaa ||| zOpt z) &&& 0x00D78110#32 ≠ 0#32)) ∨
+            (e.rule.space = 1 ∧ reg < 16#32 ∧ aaa = 0#32 ∧ z = false)) :
     ∃ bytes k0 k2, e.kinds = [k0, k2] ∧
-      emitVexEvexM c (finalOpM e 0x71 size) 0#32 (r32 reg.toNat) m imm 1 = .ok bytes ∧
-      formOk ctx e.rule [.reg k0 reg.toNat, .mem mo, .imm imm] {} bytes = true := by
+      emitVexEvexM c (finalOpM e 0x71 size) (zOpt z) (r32 reg.toNat) m imm 1 = .ok bytes ∧
+      formOk ctx e.rule [.reg k0 reg.toNat, .mem mo, .imm imm] (decorOf aaa.toNat z false false 0) bytes = true := by
   have hok := mem_chunks_ok rmi_mem_entries_ok e ch hch he
   unfold entryOkRmiMem at hok
   split at hok
@@ -344,26 +351,27 @@ theorem front_cls_correct_rmi_mem (e : Entry) (ch : List Entry) (hch : ch ∈ rm
       rw [hops]
       exact alignOps3i _ _ _ _ _ _ _ (by rw [formOpMatches_reg_nofix _ _ _ _ n0]; exact m0) (hasMemAlt_matches _ _ _ _ hm2 hsize AF.hvsib) m3
     have e0 : reg + ((0#32 : BitVec 32) <<< 7) = reg := by bv_decide
-    rcases hids with ⟨hsp, hr, hev⟩ | ⟨hsp, hr⟩
+    rcases hids with ⟨hsp, hr, hev⟩ | ⟨hsp, hr, ha0, hz0⟩
     · rw [hsp] at A
       obtain ⟨hs6, hN⟩ := hevex hsp
-      have hev' : c.vexFlag = false ∨ xR (finalOpM e 0x71 size) 0#32 reg 0#32 xb 0#32 &&& 0x00D78110#32 ≠ 0#32 := by
+      have hev' : c.vexFlag = false ∨ (xR (finalOpM e 0x71 size) 0#32 reg 0#32 xb aaa ||| zOpt z) &&& 0x00D78110#32 ≠ 0#32 := by
         rcases hev with h | h
         · exact Or.inl (vexFlag_false_of c _ hvf h)
         · exact Or.inr h
-      obtain ⟨bytes, hb', hf⟩ := vexM_rmi_formOk_evex c ctx e.rule (finalOpM e 0x71 size) reg xb m mo pfx mb sib ds AF k0 f0 f2 hm64 hmode
-        hr hxop hev' (plainKind_spec _ p0) R f3 imm r3 hib hsp A hs6 hN r0 r2 hal
+      obtain ⟨bytes, hb', hf⟩ := vexM_rmi_formOk_evex c ctx e.rule (finalOpM e 0x71 size) reg xb aaa z m mo pfx mb sib ds AF k0 f0 f2 hm64 hmode
+        hr hxop hev' (plainKind_spec _ p0) R D f3 imm r3 hib hsp A hs6 hN r0 r2 hal
       refine ⟨bytes, k0, k2, hkinds, ?_, hf⟩
       rw [e0] at hb'
-      simpa [r32] using hb'
+      simpa [r32, zOpt] using hb'
     · obtain ⟨hll, hmm, hvb⟩ := hvex hsp
+      subst ha0; subst hz0
       have A' : RowAgree e.rule (finalOpM e 0x71 size) false := by rw [hsp] at A; exact A
       obtain ⟨bytes, hb', hf⟩ := vexM_rmi_formOk_vex c ctx e.rule (finalOpM e 0x71 size) reg xb m mo pfx mb sib ds AF k0 f0 f2
         (vexFlag_true_of c _ hvf hvb) hm64 hmode
         hr hxop hll hmm (plainKind_spec _ p0) R f3 imm r3 hib hsp A' r0 r2 hal
       refine ⟨bytes, k0, k2, hkinds, ?_, hf⟩
       rw [e0] at hb'
-      simpa [r32] using hb'
+      simpa [r32, zOpt] using hb'
   · simp at hok
 
 /-! ### the class switch reaches `EmitVexEvexM` with exactly these arguments -/
@@ -398,44 +406,47 @@ theorem dispatch_rmi_mem (c : Model.X86.Ctx) (row : Row) (options : BitVec 32) (
 
 /-- `front_cls_correct_rvm_mem` instantiated: `reg, vvvv, seg:[base + disp]`, ANY segment override, 64-bit or (`a32`) 32-bit address registers, ALL bases 0..15, ALL displacements -/
 theorem front_cls_correct_rvm_mem_base (e : Entry) (ch : List Entry) (hch : ch ∈ rvmChunks) (he : e ∈ ch)
-    (c : Model.X86.Ctx) (ctx : Spec.X86.Ctx) (reg vvvvv : BitVec 32) (rb : BitVec 32) (size : Nat) (d : BitVec 64) (seg : Nat) (a32 : Bool)
-    (hcm : c.mode64 = true) (hpe : c.preferEvex = false) (hk : c.extraId = 0#32) (hvs : c.vsib = false) (hts : c.tsib = false)
-    (hvf : c.vexFlag = (e.iflags &&& 0x400000#32 != 0#32)) (hm64 : ctx.mode64 = true) (hb : rb < 16#32)
+    (c : Model.X86.Ctx) (ctx : Spec.X86.Ctx) (reg vvvvv aaa : BitVec 32) (z : Bool) (rb : BitVec 32) (size : Nat) (d : BitVec 64) (seg : Nat) (a32 : Bool)
+    (hcm : c.mode64 = true) (hpe : c.preferEvex = false) (hk : c.extraId = aaa) (ha : aaa < 8#32) (hvs : c.vsib = false) (hts : c.tsib = false)
+    (hvf : c.vexFlag = (e.iflags &&& 0x400000#32 != 0#32)) (hm64 : ctx.mode64 = true)
+    (D : DecorAllowed e.rule aaa.toNat z false false) (hb : rb < 16#32)
     (hsz : ∀ f2, e.rule.ops[2]? = some f2 → hasMemAlt f2 size = true)
     (hids : (e.rule.space = 2 ∧ reg < 32#32 ∧ vvvvv < 32#32 ∧
-              (e.iflags &&& 0x400000#32 = 0#32 ∨ xR (finalOp e 0x75) 0#32 reg vvvvv rb 0#32 &&& 0x00D78110#32 ≠ 0#32)) ∨
-            (e.rule.space = 1 ∧ reg < 16#32 ∧ vvvvv < 16#32)) :
+              (e.iflags &&& 0x400000#32 = 0#32 ∨ (xR (finalOp e 0x75) 0#32 reg vvvvv rb aaa ||| zOpt z) &&& 0x00D78110#32 ≠ 0#32)) ∨
+            (e.rule.space = 1 ∧ reg < 16#32 ∧ vvvvv < 16#32 ∧ aaa = 0#32 ∧ z = false)) :
     ∃ bytes k0 k1 k2, e.kinds = [k0, k1, k2] ∧
-      emitVexEvexM c (finalOp e 0x75) 0#32 (packRegVvvvv reg.toNat vvvvv.toNat) (memBase size rb d seg a32) 0 0 = .ok bytes ∧
-      formOk ctx e.rule [.reg k0 reg.toNat, .reg k1 vvvvv.toNat, .mem (memOpBase size rb d seg a32)] {} bytes = true :=
-  front_cls_correct_rvm_mem e ch hch he c ctx reg vvvvv rb size _ _ _ _ _ _ (addrForm_base c ctx rb size d seg a32 hcm hpe hk hvs hts hm64 hb) rfl hvf hm64 hsz hids
+      emitVexEvexM c (finalOp e 0x75) (zOpt z) (packRegVvvvv reg.toNat vvvvv.toNat) (memBase size rb d seg a32) 0 0 = .ok bytes ∧
+      formOk ctx e.rule [.reg k0 reg.toNat, .reg k1 vvvvv.toNat, .mem (memOpBase size rb d seg a32)] (decorOf aaa.toNat z false false 0) bytes = true :=
+  front_cls_correct_rvm_mem e ch hch he c ctx reg vvvvv rb aaa z size _ _ _ _ _ _ (addrForm_base c ctx rb aaa size d seg a32 hcm hpe hk ha hvs hts hm64 hb) rfl D hvf hm64 hsz hids
 
 /-- `front_cls_correct_rvm_mem` instantiated: `reg, vvvv, seg:[base + index * 2^sh + disp]`, ANY segment override, 64-bit or (`a32`) 32-bit address registers, ALL bases 0..15, ALL indexes 0..15 but rSP, ALL scales, ALL displacements -/
 theorem front_cls_correct_rvm_mem_index (e : Entry) (ch : List Entry) (hch : ch ∈ rvmChunks) (he : e ∈ ch)
-    (c : Model.X86.Ctx) (ctx : Spec.X86.Ctx) (reg vvvvv : BitVec 32) (rb rx : BitVec 32) (sh : Nat) (size : Nat) (d : BitVec 64) (seg : Nat) (a32 : Bool)
-    (hcm : c.mode64 = true) (hpe : c.preferEvex = false) (hk : c.extraId = 0#32) (hvs : c.vsib = false) (hts : c.tsib = false)
-    (hvf : c.vexFlag = (e.iflags &&& 0x400000#32 != 0#32)) (hm64 : ctx.mode64 = true) (hb : rb < 16#32) (hx : rx < 16#32) (hx4 : rx ≠ 4#32) (hsh : sh < 4)
+    (c : Model.X86.Ctx) (ctx : Spec.X86.Ctx) (reg vvvvv aaa : BitVec 32) (z : Bool) (rb rx : BitVec 32) (sh : Nat) (size : Nat) (d : BitVec 64) (seg : Nat) (a32 : Bool)
+    (hcm : c.mode64 = true) (hpe : c.preferEvex = false) (hk : c.extraId = aaa) (ha : aaa < 8#32) (hvs : c.vsib = false) (hts : c.tsib = false)
+    (hvf : c.vexFlag = (e.iflags &&& 0x400000#32 != 0#32)) (hm64 : ctx.mode64 = true)
+    (D : DecorAllowed e.rule aaa.toNat z false false) (hb : rb < 16#32) (hx : rx < 16#32) (hx4 : rx ≠ 4#32) (hsh : sh < 4)
     (hsz : ∀ f2, e.rule.ops[2]? = some f2 → hasMemAlt f2 size = true)
     (hids : (e.rule.space = 2 ∧ reg < 32#32 ∧ vvvvv < 32#32 ∧
-              (e.iflags &&& 0x400000#32 = 0#32 ∨ xR (finalOp e 0x75) 0#32 reg vvvvv (xbOf rb rx) 0#32 &&& 0x00D78110#32 ≠ 0#32)) ∨
-            (e.rule.space = 1 ∧ reg < 16#32 ∧ vvvvv < 16#32)) :
+              (e.iflags &&& 0x400000#32 = 0#32 ∨ (xR (finalOp e 0x75) 0#32 reg vvvvv (xbOf rb rx) aaa ||| zOpt z) &&& 0x00D78110#32 ≠ 0#32)) ∨
+            (e.rule.space = 1 ∧ reg < 16#32 ∧ vvvvv < 16#32 ∧ aaa = 0#32 ∧ z = false)) :
     ∃ bytes k0 k1 k2, e.kinds = [k0, k1, k2] ∧
-      emitVexEvexM c (finalOp e 0x75) 0#32 (packRegVvvvv reg.toNat vvvvv.toNat) (memBaseIndex size rb rx sh d seg a32) 0 0 = .ok bytes ∧
-      formOk ctx e.rule [.reg k0 reg.toNat, .reg k1 vvvvv.toNat, .mem (memOpBaseIndex size rb rx sh d seg a32)] {} bytes = true :=
-  front_cls_correct_rvm_mem e ch hch he c ctx reg vvvvv (xbOf rb rx) size _ _ _ _ _ _ (addrForm_index c ctx rb rx size sh d seg a32 hcm hpe hk hvs hm64 hb hx hx4 hsh) rfl hvf hm64 hsz hids
+      emitVexEvexM c (finalOp e 0x75) (zOpt z) (packRegVvvvv reg.toNat vvvvv.toNat) (memBaseIndex size rb rx sh d seg a32) 0 0 = .ok bytes ∧
+      formOk ctx e.rule [.reg k0 reg.toNat, .reg k1 vvvvv.toNat, .mem (memOpBaseIndex size rb rx sh d seg a32)] (decorOf aaa.toNat z false false 0) bytes = true :=
+  front_cls_correct_rvm_mem e ch hch he c ctx reg vvvvv (xbOf rb rx) aaa z size _ _ _ _ _ _ (addrForm_index c ctx rb rx aaa size sh d seg a32 hcm hpe hk ha hvs hm64 hb hx hx4 hsh) rfl D hvf hm64 hsz hids
 
 /-- `front_cls_correct_rvm_mem` instantiated: `reg, vvvv, seg:[rip + disp32]`, ANY segment override, ALL displacements -/
 theorem front_cls_correct_rvm_mem_rip (e : Entry) (ch : List Entry) (hch : ch ∈ rvmChunks) (he : e ∈ ch)
-    (c : Model.X86.Ctx) (ctx : Spec.X86.Ctx) (reg vvvvv : BitVec 32)  (size : Nat) (d : BitVec 64) (seg : Nat)
-    (hcm : c.mode64 = true) (hpe : c.preferEvex = false) (hk : c.extraId = 0#32) (hvs : c.vsib = false) (hts : c.tsib = false)
-    (hvf : c.vexFlag = (e.iflags &&& 0x400000#32 != 0#32)) (hm64 : ctx.mode64 = true) 
+    (c : Model.X86.Ctx) (ctx : Spec.X86.Ctx) (reg vvvvv aaa : BitVec 32) (z : Bool)  (size : Nat) (d : BitVec 64) (seg : Nat)
+    (hcm : c.mode64 = true) (hpe : c.preferEvex = false) (hk : c.extraId = aaa) (ha : aaa < 8#32) (hvs : c.vsib = false) (hts : c.tsib = false)
+    (hvf : c.vexFlag = (e.iflags &&& 0x400000#32 != 0#32)) (hm64 : ctx.mode64 = true)
+    (D : DecorAllowed e.rule aaa.toNat z false false) 
     (hsz : ∀ f2, e.rule.ops[2]? = some f2 → hasMemAlt f2 size = true)
     (hids : (e.rule.space = 2 ∧ reg < 32#32 ∧ vvvvv < 32#32 ∧
-              (e.iflags &&& 0x400000#32 = 0#32 ∨ xR (finalOp e 0x75) 0#32 reg vvvvv 0#32 0#32 &&& 0x00D78110#32 ≠ 0#32)) ∨
-            (e.rule.space = 1 ∧ reg < 16#32 ∧ vvvvv < 16#32)) :
+              (e.iflags &&& 0x400000#32 = 0#32 ∨ (xR (finalOp e 0x75) 0#32 reg vvvvv 0#32 aaa ||| zOpt z) &&& 0x00D78110#32 ≠ 0#32)) ∨
+            (e.rule.space = 1 ∧ reg < 16#32 ∧ vvvvv < 16#32 ∧ aaa = 0#32 ∧ z = false)) :
     ∃ bytes k0 k1 k2, e.kinds = [k0, k1, k2] ∧
-      emitVexEvexM c (finalOp e 0x75) 0#32 (packRegVvvvv reg.toNat vvvvv.toNat) (memRip size d seg) 0 0 = .ok bytes ∧
-      formOk ctx e.rule [.reg k0 reg.toNat, .reg k1 vvvvv.toNat, .mem (memOpRip size d seg)] {} bytes = true :=
-  front_cls_correct_rvm_mem e ch hch he c ctx reg vvvvv 0#32 size _ _ _ _ _ _ (addrForm_rip c ctx size d seg hcm hpe hk hvs hm64) rfl hvf hm64 hsz hids
+      emitVexEvexM c (finalOp e 0x75) (zOpt z) (packRegVvvvv reg.toNat vvvvv.toNat) (memRip size d seg) 0 0 = .ok bytes ∧
+      formOk ctx e.rule [.reg k0 reg.toNat, .reg k1 vvvvv.toNat, .mem (memOpRip size d seg)] (decorOf aaa.toNat z false false 0) bytes = true :=
+  front_cls_correct_rvm_mem e ch hch he c ctx reg vvvvv 0#32 aaa z size _ _ _ _ _ _ (addrForm_rip c ctx aaa size d seg hcm hpe hk ha hvs hm64) rfl D hvf hm64 hsz hids
 
 end AsmjitVerif.Props.C01
